@@ -362,7 +362,9 @@ class QueryGen:
         a0 = self.new_alias()
         if self.on("derived", 0.12):
             self.tag("derived")
-            sub = QueryGen(r, self.tables, self.f)
+            # (no constant predicates inside a derived table: `(x IS NULL) AND (1 > 2)` folds to a
+            # constant select item, the known constant-column-through-outer-join finding)
+            sub = QueryGen(r, self.tables, dict(self.f, const_pred=False))
             sub.alias_n = self.alias_n + 10
             # every select item of a derived table refers to a column: a constant item on the
             # NULL-padded side of an outer join is a known finding (C01) with its own sentinel
@@ -473,6 +475,8 @@ class QueryGen:
             extra = f" AND {self.bool_expr(s, 1)}" if r.random() < 0.4 else ""
             return f"({neg}EXISTS (SELECT 1 FROM {t.name} AS {a} WHERE {corr}{extra}))"
         if k == "scalar":
+            if not self.f.get("scalar_sub_where", True):
+                inner_where = ""
             agg = r.choice(["MIN", "MAX", "COUNT"])
             return (f"({r.choice(ints_out)[0]} {r.choice(['=', '<', '>', '<=', '>='])} "
                     f"(SELECT {agg}({r.choice(ints_in)[0]}) FROM {t.name} AS {a}{inner_where}))")
